@@ -198,6 +198,13 @@ def work(job):
             for tail in itertools.product(ops, repeat=rest):
                 hist = list(prefix_ops) + [list(o) for o in tail]
                 _one(hist, part)
+        elif kind == 'single':
+            # ONE parser instance, longer histories: constructed with document d0, then every sequence of
+            # load_file(d) / process() of exactly `depth` operations
+            single_ops = [['reload', 0, d] for d in range(len(DOCS))] + [['process', 0]]
+            for tail in itertools.product(single_ops, repeat=depth):
+                hist = [list(o) for o in prefix_ops] + [list(o) for o in tail]
+                _one(hist, part)
     finally:
         cleanup()
     return part
@@ -252,6 +259,15 @@ def explore(ctx):
             jobs.append(('sweep', [], nslots, 1))
         else:
             jobs += [('sweep', [list(o)], nslots, d) for o in ops]
+    single_depth = 7 if ctx.thorough else 6
+    for d0 in range(len(DOCS)):
+        for d in range(2, single_depth + 1):
+            if d <= 4:
+                jobs.append(('single', [['new', 0, d0]], 1, d))
+            else:
+                # split the big levels by their first operation
+                for first in [['reload', 0, k] for k in range(len(DOCS))] + [['process', 0]]:
+                    jobs.append(('single', [['new', 0, d0], first], 1, d - 1))
     for part in pmap(work, jobs):
         part.states = part.evaluations   # un-pruned: every history is its own state
         ctx.merge(part)
@@ -261,9 +277,11 @@ def explore(ctx):
     ctx.rule = (f'all histories over {len(ops)} operations ({nslots} slots x (3 docs x new/reload/load-through-a-shared-rewritten-path + process)) of '
                 f'length 1..{depth}, each replayed on fresh parser objects (un-pruned); plus a BFS pruned on the '
                 'canonical state (per slot: document, normal form of accumulated contents; class/module globals) '
-                f'to depth {7 if ctx.thorough else 5}; non-trivial = history contains a process()')
+                f'to depth {7 if ctx.thorough else 5}; plus, on ONE parser instance, every sequence of load_file(d)/process() of length '
+                f'<= {7 if ctx.thorough else 6} after construction with each document; non-trivial = history contains a process()')
     ctx.bounds = {'slots': nslots, 'documents': 4, 'unpruned_depth': depth,
-                  'pruned_depth': 7 if ctx.thorough else 5}
+                  'pruned_depth': 7 if ctx.thorough else 5,
+                  'single_instance_depth': 7 if ctx.thorough else 6}
     ctx.assumptions += ['pruning argument: a DznJsonAst holds only _ast, _file_contents, _ns_trail (immutable '
                         'root) and _verbose; module/class level mutable objects are part of the canonical state, '
                         'so a new hidden global shows up as a state change; cross-checked by the un-pruned sweep']
